@@ -393,3 +393,12 @@ def rules(chk: Check) -> None:
     jacobian_identity(chk, "R13.6", "grid:Grid", (1, 2))
     jacobian_identity(chk, "R13.6", "grid3Scales:Grid3Scales", (1, 2))
     chk.floor("R13.6", 4)
+    # getDeltas integrates the same Polynomial four times: each integral must see the same deltaF (R13.7: integrate / evaluate leave the stored
+    # coefficients untouched, shared with C16 R16.5), through the same quadrature (R13.8, shared with C09 R09.4)
+    from ..core import Remap
+    from .c16 import coefficients_not_modified
+    from . import c09
+    coefficients_not_modified(chk, "R13.7")
+    chk.floor("R13.7", 6)
+    c09.r09_4(Remap(chk, {"R09.4": "R13.8"}))
+    chk.floor("R13.8", 2)
